@@ -10,8 +10,13 @@
      minv        : Matrix_::inverse()                              A nonsingular => A R = I
      lsq         : solve(A, B), A m x n, m > n                     A^T A nonsingular => (A^T A) X = A^T B
      quat        : Quaternion_ product, inverse, matrix(), rotation of a vector (q, p of norm one)
+     vec / aff / cplx / qalg (growth, operators of LinAlgGeom.tla): Vec3 / Vec4 algebra, affine transforms (point, direction,
+                   composition, inverse), Complex over Z_P[i], quaternions of any norm
    Singularity is decided by the spec (elimination determinant); for singular systems any result is accepted.   *)
 EXTENDS LinAlg, Json, IOUtils, TLC
+
+\* the geometry layer (growth): operators of LinAlgGeom.tla; its case-generator variables and sizes are not used here
+G == INSTANCE LinAlgGeom WITH c <- 0, phase <- 0, NVec <- 0, NAff <- 0, NQuat <- 0, NCplx <- 0, NDyn <- 0
 
 T == ndJsonDeserialize(IOEnv.TRACE)
 VARIABLE l
@@ -74,6 +79,39 @@ QuatOK(e) ==
     /\ MatMul(RotOf(e.q), Transpose(RotOf(e.q))) = Ident(3) /\ Det(RotOf(e.q)) = 1
     /\ e.qw = MatVec(RotOf(e.q), e.w)                               \* operator*(Vec3)
 
+\* vec: Vec3 cross / dot / triple product (= det of the Matrix3 with these rows), Vec4 compare / == / h2c
+WFV(v, n) == Len(v) = n /\ \A i \in 1..n : v[i] \in Fp
+VecOK(e) ==
+    /\ WFV(e.a, 3) /\ WFV(e.b, 3) /\ WFV(e.c, 3) /\ WFV(e.a4, 4) /\ WFV(e.b4, 4)
+    /\ e.cross = G!Cross3(e.a, e.b) /\ e.dot = Dot(e.a, e.b)
+    /\ G!Len2(e.cross) = SubP(MulP(G!Len2(e.a), G!Len2(e.b)), MulP(e.dot, e.dot))          \* Lagrange
+    /\ e.triple = Det(<<e.a, e.b, e.c>>) /\ e.det = e.triple
+    /\ e.cmp4 = G!Cmp(e.a4, e.b4) /\ (e.eq4 = 1) = (e.a4 = e.b4)
+    /\ e.a4[4] # 0 => (e.h2c = G!H2C(e.a4) /\ e.dz = 0)
+\* aff: an affine transform (L | t) on a point / direction, composition with a second one, inverse
+AffOK(e) ==
+    /\ WellFormed(e.l, 3, 3) /\ WellFormed(e.l2, 3, 3) /\ WFV(e.t, 3) /\ WFV(e.t2, 3) /\ WFV(e.p, 3) /\ WellFormed(e.inv, 4, 4)
+    /\ LET L == Sq(e.l, 3) A == G!Affine(L, e.t) A2 == G!Affine(Sq(e.l2, 3), e.t2) IN
+       /\ Sq(e.g, 4) = A
+       /\ e.gp = G!Point(A, e.p) /\ e.gd = G!Direction(A, e.p) /\ e.gp = G!VAdd(e.gd, e.t)
+       /\ Sq(e.prod, 4) = MatMul(A, A2)
+       /\ e.comp = G!Point(A, G!Point(A2, e.p)) /\ e.viaprod = e.comp                     \* product = composition
+       /\ e.det = Det(L) /\ e.det = Det(A)
+       /\ Det(L) # 0 => /\ e.dz = 0 /\ Sq(e.inv, 4) = AdjInverse(A) /\ e.back = e.p
+                         /\ Sq(e.inv, 4) = G!Affine(AdjInverse(L), G!VNeg(MatVec(AdjInverse(L), e.t)))
+\* cplx: Z_P[i]
+CplxOK(e) ==
+    /\ WFV(e.z, 2) /\ WFV(e.y, 2)
+    /\ e.sum = G!VAdd(e.z, e.y) /\ e.prd = G!CMul(e.z, e.y) /\ e.conj = G!CConj(e.z) /\ e.mag2 = G!Len2(e.z)
+    /\ G!Len2(e.y) # 0 => (e.dz = 0 /\ e.quo = G!CDiv(e.z, e.y) /\ G!CMul(e.quo, e.y) = e.z)
+\* qalg: quaternions of any norm
+QalgOK(e) ==
+    /\ WFV(e.q1, 4) /\ WFV(e.q2, 4) /\ WFV(e.q3, 4)
+    /\ e.p12 = QMulP(e.q1, e.q2) /\ e.lft = QMulP(e.p12, e.q3) /\ e.rgt = e.lft                \* associative
+    /\ e.conj = QConjP(e.q1) /\ e.n1 = QNorm2(e.q1)
+    /\ QNorm2(e.p12) = MulP(e.n1, QNorm2(e.q2))
+    /\ e.n1 # 0 => (e.dz = 0 /\ QMulP(e.q1, e.inv) = One /\ QMulP(e.inv, e.q1) = One)
+
 TInit == l = 1
 TStep ==
   /\ l <= Len(T)
@@ -88,6 +126,10 @@ TStep ==
      \/ e.e = "minv" /\ MinvOK(e)
      \/ e.e = "lsq" /\ LsqOK(e)
      \/ e.e = "quat" /\ QuatOK(e)
+     \/ e.e = "vec" /\ VecOK(e)
+     \/ e.e = "aff" /\ AffOK(e)
+     \/ e.e = "cplx" /\ CplxOK(e)
+     \/ e.e = "qalg" /\ QalgOK(e)
 
 TraceSpec == TInit /\ [][TStep]_l
 TraceAccepted == TLCGet("stats").diameter - 1 = Len(T)
